@@ -1,8 +1,9 @@
 // C03 driver: replays TLC-generated handshake message sequences (spec/Session.tla,
 // Session_c03*.cfg: first-connect, phase 1 for any id, phase 2 with valid-latest / valid-stale /
-// foreign-key / garbage responses, control and tunnel connection types, bans, blacklisting and
-// credential expiry) on the real ServerAuthHandler + SessionManager + BuiltinCloudControl
-// assembled by srvkit. The driver keeps the secrets handed out by first-connect and computes
+// foreign-key / empty-key / superseded-key / garbage responses, control and tunnel connection
+// types, bans, black- and whitelist entries of every shape, the IPManager re-created from the
+// shared storage, undecryptable and reset stored secrets, credential expiry) on the real
+// ServerAuthHandler + SessionManager + BuiltinCloudControl assembled by srvkit. The driver keeps the secrets handed out by first-connect and computes
 // real HMACs to realise every response class; after every message it logs the handshake
 // response read back from the connection, IsAuthenticated()/GetClientID() of every connection
 // and GetControlConnectionByClientID of every client for the judge (spec/SessionTrace.tla).
@@ -11,6 +12,7 @@ package main
 import (
 	"encoding/json"
 	"fmt"
+	"hash/fnv"
 	"reflect"
 	"runtime"
 	"sort"
@@ -45,7 +47,7 @@ type opT struct {
 	Resp string `json:"resp"`
 	Type string `json:"type"`
 	Out  string `json:"out"`
-	How  string `json:"how"` // Blacklist: "temp" | "perm" | "cidr"
+	How  string `json:"how"` // Blacklist: "temp" | "perm" | "cidr"; Whitelist: "exact" | "cidr"; Corrupt: record shape; Reload: store shape
 	Exp  *expT  `json:"exp"`
 }
 
@@ -63,6 +65,7 @@ var bindingMismatch, bindingSteps atomic.Int64
 type runner struct {
 	w      *srvkit.World
 	nonces map[string][]string // per connection: challenges received, in order (index = position + 1)
+	oldKey map[string]string   // per client: the secret that a reset replaced (the first holder still has it)
 }
 
 func (r *runner) nonceIndex(c, ch string) int {
@@ -194,6 +197,14 @@ func (r *runner) msg(o opT) (fw.Event, string, string) {
 			}
 			response = srvkit.HMAC(w.Cred(other).Secret, r.nonces[o.C][n-1])
 			ev["key"], ev["over"] = other, n
+		case "OldKey":
+			// the key that was handed out first and has been reset since: not the stored secret any more
+			old := r.oldKey[o.ID]
+			if old == "" || n < 1 {
+				return nil, "", "no superseded key / challenge available (model and server disagree)"
+			}
+			response = srvkit.HMAC(old, r.nonces[o.C][n-1])
+			ev["key"], ev["over"] = "old", n
 		case "EmptyKey":
 			// what anybody who saw the challenge can compute: the HMAC under the empty key
 			if n < 1 {
@@ -228,6 +239,17 @@ func (r *runner) msg(o opT) (fw.Event, string, string) {
 	return ev, class, ""
 }
 
+// shapeOf picks the value shape of the shared store for a behaviour that does not name one: half
+// of the behaviours see byte values, half string values (stable per behaviour).
+func shapeOf(data []byte) string {
+	h := fnv.New32a()
+	h.Write(data)
+	if h.Sum32()%2 == 0 {
+		return "bytes"
+	}
+	return "string"
+}
+
 func drive(env *fw.Env, b fw.Behaviour) *fw.Trace {
 	if len(b.Data) > 0 && b.Data[0] == '{' {
 		return driveCleanupRace(env, b)
@@ -246,7 +268,7 @@ func drive(env *fw.Env, b fw.Behaviour) *fw.Trace {
 		return &fw.Trace{Status: fw.DriverError, Note: err.Error()}
 	}
 	defer s.Close()
-	r := &runner{w: srvkit.NewWorld(s, keys(ops[0].Exp.Auth), keys(ops[0].Exp.Idx)), nonces: map[string][]string{}}
+	r := &runner{w: srvkit.NewWorld(s, keys(ops[0].Exp.Auth), keys(ops[0].Exp.Idx)), nonces: map[string][]string{}, oldKey: map[string]string{}}
 	for _, n := range r.w.ConnNames { // Session_c03*.cfg: PreAccept = TRUE
 		if _, err := r.w.Accept(n); err != nil {
 			return &fw.Trace{Status: fw.DriverError, Note: err.Error()}
@@ -281,20 +303,58 @@ func drive(env *fw.Env, b fw.Behaviour) *fw.Trace {
 				return &fw.Trace{Status: fw.DriverError, Note: err.Error()}
 			}
 			ev = fw.Event{"ev": "Env", "k": "Blacklist", "c": o.C, "id": "none", "how": o.How}
+		case "Whitelist":
+			ip := r.w.IP(o.C)
+			if o.How == "cidr" {
+				ip += "/32"
+			}
+			if err := s.Whitelist(ip); err != nil {
+				return &fw.Trace{Status: fw.DriverError, Note: err.Error()}
+			}
+			ev = fw.Event{"ev": "Env", "k": "Whitelist", "c": o.C, "id": "none", "how": o.How}
 		case "Reload":
-			// restart / another node: the IPManager is re-created from the shared storage
-			s.ReloadIPManager()
-			ev = fw.Event{"ev": "Env", "k": "Reload", "c": "none", "id": "none"}
+			// restart / another node: the IPManager is re-created from the shared storage, which hands
+			// the records back as written (memory backend) or as strings (Redis-like backend)
+			shape := o.How
+			if shape == "" {
+				shape = shapeOf(b.Data)
+			}
+			if err := s.ReloadIPManagerShape(shape); err != nil {
+				return &fw.Trace{Status: fw.DriverError, Note: err.Error()}
+			}
+			ev = fw.Event{"ev": "Env", "k": "Reload", "c": "none", "id": "none", "how": shape}
 		case "Corrupt":
 			cred := r.w.Cred(o.ID)
 			if cred == nil {
 				t.Note = fmt.Sprintf("stopped before step %d: Corrupt of an identity the server never issued", i+1)
 				break
 			}
-			if err := s.CorruptStoredSecret(cred.ID); err != nil {
+			if err := s.CorruptStoredSecretAs(cred.ID, o.How); err != nil {
 				return &fw.Trace{Status: fw.DriverError, Note: err.Error()}
 			}
-			ev = fw.Event{"ev": "Env", "k": "Corrupt", "c": "none", "id": o.ID}
+			ev = fw.Event{"ev": "Env", "k": "Corrupt", "c": "none", "id": o.ID, "how": o.How}
+		case "Rekey":
+			cred := r.w.Cred(o.ID)
+			if cred == nil {
+				t.Note = fmt.Sprintf("stopped before step %d: Rekey of an identity the server never issued", i+1)
+				break
+			}
+			fresh, err := s.ResetSecret(cred.ID)
+			if err != nil || fresh == "" {
+				return &fw.Trace{Status: fw.DriverError, Note: fmt.Sprintf("Rekey: %v", err)}
+			}
+			r.oldKey[o.ID] = r.w.SetSecret(o.ID, fresh)
+			ev = fw.Event{"ev": "Env", "k": "Rekey", "c": "none", "id": o.ID}
+		case "Delete":
+			cred := r.w.Cred(o.ID)
+			if cred == nil {
+				t.Note = fmt.Sprintf("stopped before step %d: Delete of an identity the server never issued", i+1)
+				break
+			}
+			if err := s.DeleteClient(cred.ID); err != nil {
+				return &fw.Trace{Status: fw.DriverError, Note: "Delete: " + err.Error()}
+			}
+			ev = fw.Event{"ev": "Env", "k": "Delete", "c": "none", "id": o.ID}
 		case "Expire", "Bind":
 			cred := r.w.Cred(o.ID)
 			if cred == nil {
@@ -402,7 +462,7 @@ func driveCleanupRace(env *fw.Env, b fw.Behaviour) *fw.Trace {
 		return &fw.Trace{Status: fw.DriverError, Note: err.Error()}
 	}
 	defer s.Close()
-	r := &runner{w: srvkit.NewWorld(s, []string{"c1", "c2"}, []string{"A", "B"}), nonces: map[string][]string{}}
+	r := &runner{w: srvkit.NewWorld(s, []string{"c1", "c2"}, []string{"A", "B"}), nonces: map[string][]string{}, oldKey: map[string]string{}}
 	for _, n := range r.w.ConnNames {
 		if _, err := r.w.Accept(n); err != nil {
 			return &fw.Trace{Status: fw.DriverError, Note: err.Error()}
@@ -525,9 +585,28 @@ func selfTest(env *fw.Env, acc []*fw.Trace) []*fw.Trace {
 	}
 	for _, t := range acc {
 		done := map[int]bool{}
+		bl, wl := map[string]bool{}, map[string]bool{} // addresses on the blacklist / on the whitelist so far
 		for i, e := range t.Events {
+			if e["ev"] == "Env" {
+				c, _ := e["c"].(string)
+				switch e["k"] {
+				case "Blacklist":
+					bl[c] = true
+				case "Whitelist":
+					wl[c] = true
+				}
+			}
 			if e["ev"] != "Msg" {
 				continue
+			}
+			// 5. a handshake from a blacklisted address (whatever the shape of the entry, before or after a
+			// restart) reported as successful
+			if c, _ := e["c"].(string); !done[5] && bl[c] && !wl[c] && !e["out"].(map[string]any)["success"].(bool) {
+				done[5] = true
+				add(5, t, func(evs []fw.Event) []fw.Event {
+					evs[i]["out"].(map[string]any)["success"] = true
+					return evs
+				})
 			}
 			o := e["out"].(map[string]any)
 			post := e["post"].(map[string]any)
@@ -581,7 +660,7 @@ func selfTest(env *fw.Env, acc []*fw.Trace) []*fw.Trace {
 				}
 			}
 		}
-		if len(out) >= 24 {
+		if len(out) >= 30 {
 			break
 		}
 	}
@@ -602,53 +681,67 @@ func main() {
 		ID:        "C03",
 		DesignRef: "DESIGN.md §5 C03",
 		ModelJobs: func(env *fw.Env) []fw.TLCJob {
+			job := func(name, cfg, level string, workers int) fw.TLCJob {
+				return fw.TLCJob{Name: name, Module: "Session", Cfg: cfg, Workers: workers,
+					Consts: map[string]string{"FIXES": fixes, "LEVEL": level, "EMIT": `"no"`}}
+			}
 			if env.Tier == "thorough" {
 				return withTimeout(40*time.Minute, []fw.TLCJob{
-					{Name: "handshake 2x2 depth 9, patched tree", Module: "Session", Cfg: "Session_c03.cfg",
-						Consts: map[string]string{"FIXES": fixes, "LEVEL": "9", "EMIT": `"no"`}},
+					job("handshake 2x2 depth 9, patched tree", "Session_c03.cfg", "9", 0),
 					{Name: "handshake 2x2 depth 8, unpatched tree", Module: "Session", Cfg: "Session_c03.cfg",
 						Consts: map[string]string{"FIXES": "{}", "LEVEL": "8", "EMIT": `"no"`}},
-					{Name: "handshake 3x3 depth 6, patched tree", Module: "Session", Cfg: "Session_c03t.cfg",
-						Consts: map[string]string{"FIXES": fixes, "LEVEL": "6", "EMIT": `"no"`}},
-					{Name: "handshake environment classes, complete", Module: "Session", Cfg: "Session_c03env.cfg",
-						Consts: map[string]string{"FIXES": fixes, "LEVEL": "99", "EMIT": `"no"`}},
+					job("handshake 3x3 depth 6, patched tree", "Session_c03t.cfg", "6", 0),
+					job("addresses (lists, restart) depth 8", "Session_c03addr.cfg", "8", 0),
+					job("stored secrets (undecryptable, reset) depth 9", "Session_c03key.cfg", "9", 0),
+					job("all environment actions depth 6", "Session_c03env.cfg", "6", 0),
 				})
 			}
 			return []fw.TLCJob{
-				{Name: "handshake 2x2 depth 6", Module: "Session", Cfg: "Session_c03.cfg",
-					Consts: map[string]string{"FIXES": fixes, "LEVEL": "6", "EMIT": `"no"`}},
-				{Name: "handshake environment classes depth 7", Module: "Session", Cfg: "Session_c03env.cfg",
-					Consts: map[string]string{"FIXES": fixes, "LEVEL": "7", "EMIT": `"no"`}},
+				job("handshake 2x2 depth 6", "Session_c03.cfg", "6", 4),
+				job("addresses (lists, restart) depth 6", "Session_c03addr.cfg", "6", 4),
+				job("stored secrets (undecryptable, reset) depth 7", "Session_c03key.cfg", "7", 4),
 			}
 		},
 		GenJobs: func(env *fw.Env) []fw.TLCJob {
+			gen := func(name, cfg, level string) fw.TLCJob {
+				return fw.TLCJob{Name: name, Module: "Session", Cfg: cfg, Workers: 4,
+					Consts: map[string]string{"FIXES": fixes, "LEVEL": level, "EMIT": `"all"`}}
+			}
 			if env.Tier == "thorough" {
 				return withTimeout(40*time.Minute, []fw.TLCJob{
-					{Name: "gen:env", Module: "Session", Cfg: "Session_c03env.cfg", Workers: 8,
-						Consts: map[string]string{"FIXES": fixes, "LEVEL": "5", "EMIT": `"all"`}},
-					{Name: "gen:transitions 2x2", Module: "Session", Cfg: "Session_c03.cfg", Workers: 8,
-						Consts: map[string]string{"FIXES": fixes, "LEVEL": "6", "EMIT": `"all"`}},
-					{Name: "gen:transitions 3x3", Module: "Session", Cfg: "Session_c03t.cfg", Workers: 8,
-						Consts: map[string]string{"FIXES": fixes, "LEVEL": "4", "EMIT": `"all"`}},
-					{Name: "gen:simulate 3x3", Module: "Session", Cfg: "Session_c03t.cfg", Workers: 4, Simulate: "num=6000", Depth: 15, Seed: env.Seed,
+					gen("gen:addr", "Session_c03addr.cfg", "5"),
+					gen("gen:key", "Session_c03key.cfg", "6"),
+					gen("gen:transitions 2x2", "Session_c03.cfg", "6"),
+					gen("gen:transitions 3x3", "Session_c03t.cfg", "4"),
+					{Name: "gen:simulate env", Module: "Session", Cfg: "Session_c03env.cfg", Workers: 4, Simulate: "num=4000", Depth: 15, Seed: env.Seed,
 						Consts: map[string]string{"FIXES": fixes, "LEVEL": "14", "EMIT": `"last"`}},
 				})
 			}
-			return []fw.TLCJob{ // gen:env first: identical lines of later jobs are dropped, not these
-				{Name: "gen:env", Module: "Session", Cfg: "Session_c03env.cfg", Workers: 8,
-					Consts: map[string]string{"FIXES": fixes, "LEVEL": "4", "EMIT": `"all"`}},
-				{Name: "gen:transitions 2x2", Module: "Session", Cfg: "Session_c03.cfg", Workers: 8,
-					Consts: map[string]string{"FIXES": fixes, "LEVEL": "5", "EMIT": `"all"`}},
-				{Name: "gen:simulate 2x2", Module: "Session", Cfg: "Session_c03.cfg", Workers: 4, Simulate: "num=600", Depth: 11, Seed: env.Seed,
+			return []fw.TLCJob{ // the environment graphs first: identical lines of later jobs are dropped, not these
+				gen("gen:addr", "Session_c03addr.cfg", "4"),
+				gen("gen:key", "Session_c03key.cfg", "5"),
+				gen("gen:transitions 2x2", "Session_c03.cfg", "5"),
+				{Name: "gen:simulate env", Module: "Session", Cfg: "Session_c03env.cfg", Workers: 4, Simulate: "num=600", Depth: 11, Seed: env.Seed,
 					Consts: map[string]string{"FIXES": fixes, "LEVEL": "10", "EMIT": `"last"`}},
 			}
 		},
-		// the environment-class configuration is driven completely; the big graphs are sampled
+		// the short environment graphs are driven completely in the thorough tier; the big graphs are sampled
 		MaxBehSrc: func(env *fw.Env, src string) int {
 			if env.Tier == "thorough" {
-				return map[string]int{"gen:transitions 2x2": 30000, "gen:transitions 3x3": 12000, "gen:simulate 3x3": 30000}[src]
+				return map[string]int{"gen:transitions 2x2": 30000, "gen:transitions 3x3": 12000, "gen:simulate env": 30000}[src]
 			}
-			return map[string]int{"gen:transitions 2x2": 3500, "gen:simulate 2x2": 1500}[src]
+			return map[string]int{"gen:addr": 4000, "gen:key": 3000, "gen:transitions 2x2": 3500, "gen:simulate env": 1500}[src]
+		},
+		// thorough: every behaviour that re-creates the address manager is driven over both value shapes of the store
+		Expand: func(env *fw.Env, src string, d json.RawMessage) []json.RawMessage {
+			const mark = `{"op":"Reload",`
+			if env.Tier != "thorough" || !strings.Contains(string(d), mark) {
+				return []json.RawMessage{d}
+			}
+			return []json.RawMessage{
+				json.RawMessage(strings.ReplaceAll(string(d), mark, `{"op":"Reload","how":"bytes",`)),
+				json.RawMessage(strings.ReplaceAll(string(d), mark, `{"op":"Reload","how":"string",`)),
+			}
 		},
 		ExtraBeh:    raceBehaviours,
 		Drive:       drive,
@@ -665,7 +758,10 @@ func main() {
 		Rule: "one behaviour per transition (state, message) of the Session handshake state graph to the depth bound (seeded sample when capped) plus random deep message sequences, " +
 			"each replayed on the real ServerAuthHandler/SessionManager; non-trivial = at least 3 messages/environment actions",
 		Assumptions: []string{
-			"every connection has its own remote address; bans and blacklisting are applied through BruteForceProtector.BanIP / IPManager.AddToBlacklist, credential expiry by rewriting the stored ExpiresAt",
+			"every connection has its own remote address; bans and list entries are applied through BruteForceProtector.BanIP / IPManager.AddToBlacklist / AddToWhitelist (temporary = 1 h, permanent, /32 range)",
+			"a restart / another node is the IPManager re-created on the same storage (as SecurityComponent.Initialize does) and a new auth handler around it; the other components keep running; the store hands the persisted records back as bytes or as strings",
+			"an address on both lists is not 'blacklisted' for the judge (the statement is silent; the code lets the whitelist win); a ban of the protector bars it all the same",
+			"undecryptable stored secrets are written through the client configuration repository (sealed under another master key, noise, not base64, too short, empty); a secret reset is CloudControl.ResetClientCredentials, after which the first holder's key counts as nobody's key; a deleted client (Service.DeleteClient) is an unknown client from then on",
 			"credential expiry = Service.ExtendExpiration with a negative number of days, on anonymous clients and on clients bound to a user (Service.BindToUser); the judge takes 'expired' from the stored record (expiry date in the past)",
 			"the protector's clean-up pass is run with VerifCleanup and stopped at the yield point bf.unban.enter (build tag verif) to place a fresh ban between its scan and its removal",
 			"the brute-force threshold is configured to 3 failures (model constant MaxFail) so that organic bans occur inside short behaviours",
